@@ -251,11 +251,43 @@ fn decimal_variant(rng: &mut Rng, g: Geometry<f64>) -> Geometry<f64> {
     g.map_coords(move |p| Coord { x: p.x * f, y: p.y * f })
 }
 
+/// a hole (or notch) vertex that lies, on the lattice, exactly on a slanted shell edge after the chain has passed a vertex;
+/// scaled by a decimal factor it lies a fraction of an ulp beside the edge (the driver decides validity exactly)
+fn near_touch_decimal(rng: &mut Rng) -> Geometry<f64> {
+    let bases: [(&[(i64, i64)], &[(i64, i64)]); 4] = [
+        (&[(-5, -5), (15, -5), (8, 9), (0, 1)], &[(4, 5), (6, 3), (6, 5)]),
+        (&[(-5, -5), (15, -5), (5, 10), (0, 0)], &[(2, 4), (4, 2), (4, 4)]),
+        (&[(-4, -6), (16, -6), (10, 5), (0, 0)], &[(4, 2), (6, 0), (6, 2)]),
+        (&[(-5, -5), (15, -5), (9, 10), (0, 1)], &[(3, 4), (6, 3), (6, 5)]),
+    ];
+    let (sh, ho) = *rng.pick(&bases);
+    let sym = rng.below(8);
+    let f = *rng.pick(&[0.1f64, 0.1, 0.3, 0.7, 1.0 / 3.0, 0.01]);
+    let (ox, oy) = (rng.range(-2, 2), rng.range(-2, 2));
+    let tf = |&(x, y): &(i64, i64)| -> Coord<f64> {
+        let (x, y) = (x + ox, y + oy);
+        let (x, y) = if sym & 1 != 0 { (-x, y) } else { (x, y) };
+        let (x, y) = if sym & 2 != 0 { (x, -y) } else { (x, y) };
+        let (x, y) = if sym & 4 != 0 { (y, x) } else { (x, y) };
+        Coord { x: x as f64 * f, y: y as f64 * f }
+    };
+    let ring = |v: &[(i64, i64)], rng: &mut Rng| -> LineString<f64> {
+        let mut cs: Vec<Coord<f64>> = v.iter().map(tf).collect();
+        let k = rng.below(cs.len() as u64) as usize;
+        cs.rotate_left(k);
+        if rng.chance(1, 2) { cs.reverse(); }
+        let first = cs[0];
+        cs.push(first);
+        LineString(cs)
+    };
+    Geometry::Polygon(Polygon::new(ring(sh, rng), vec![ring(ho, rng)]))
+}
+
 pub fn gen(rng: &mut Rng, _index: u64) -> String {
     // the extra stream of ./check C10 (lib/props/C10.py: monobuild_stream): builder-vs-model cases only
     if std::env::var("VERIF_C10_STREAM").map(|v| v == "monobuild").unwrap_or(false) {
         let g = if rng.chance(1, 4) { wild_geom(rng) } else { gen_geom(rng, true) };
-        let g = decimal_variant(rng, g);
+        let g = if rng.chance(1, 6) { near_touch_decimal(rng) } else { decimal_variant(rng, g) };
         return format!("C10.monobuild {}", proto::geom(&g));
     }
     match rng.below(10) {
@@ -274,7 +306,7 @@ pub fn gen(rng: &mut Rng, _index: u64) -> String {
                 // a quarter of these on arbitrary vertex sequences (crossings, overlaps, T-junctions, spikes):
                 // outside the property's domain, but the model mirrors the code there too, panics included
                 let g = if rng.chance(1, 4) { wild_geom(rng) } else { g };
-                let g = decimal_variant(rng, g);
+                let g = if rng.chance(1, 6) { near_touch_decimal(rng) } else { decimal_variant(rng, g) };
                 format!("C10.monobuild {}", proto::geom(&g))
             } else {
                 format!("C10.mono {} {}", proto::geom(&g), lattice(&g))
